@@ -15,7 +15,8 @@
 // The descriptor token is for the model and the oracle only.
 // Canonical forms: fields `addr=value` sorted, of enabled sub-trees only; lines
 // `addr:value` / `addr:[v;v;…]` sorted, obtained by scanning the file text with the
-// library's own scanner; values i<dec> c<dec> f<bits> T F S<hex> s<hex>.
+// library's own scanner; values i<dec> c<dec> f<bits> T F S<hex> s<hex>; an enumeration
+// symbol is printed as its index.
 #include "common.h"
 #include <rtosc/rtosc.h>
 #include <rtosc/ports.h>
@@ -117,7 +118,7 @@ struct Scanned { bool ok; std::vector<std::string> chunks; std::vector<std::stri
 
 // split the body (text behind the two header lines) into messages with the library's
 // scanner, and render each canonically
-static Scanned scan_body(const char *body) {
+static Scanned scan_body(const char *body, const rtosc::Ports *meta_of) {
     Scanned r;
     r.ok = true;
     const char *p = body;
@@ -131,6 +132,16 @@ static Scanned scan_body(const char *body) {
             size_t b = chunk.find_first_not_of(" \t\n\r"), e = chunk.find_last_not_of(" \t\n\r");
             r.chunks.push_back(b == std::string::npos ? std::string() : chunk.substr(b, e - b + 1));
             std::string line = std::string(adr.data()) + ":";
+            // an enumeration symbol and its index denote the same value: print the index
+            // (the property does not say which spelling the file uses)
+            if(meta_of) {
+                const rtosc::Port *port = meta_of->apropos(adr.data());
+                if(port) for(int k = 0; k < nargs; ++k)
+                    if(av[k].type == 'S') {
+                        int key = rtosc::enum_key(port->meta(), av[k].val.s);
+                        if(key != INT_MIN) { av[k].type = 'i'; av[k].val.i = key; }
+                    }
+            }
             if(nargs > 0 && av[0].type == 'a') {
                 line += "[";
                 rtosc_arg_val_itr it;
@@ -204,7 +215,7 @@ static std::string step(const std::string &line) {
     std::string text = rtosc::save_to_file(a->ports(), a->obj(), a->name(), APPVER, written, {});
     size_t hl = header_len(text);
     std::string header = text.substr(0, hl), body = text.substr(hl);
-    Scanned sc = scan_body(body.c_str());
+    Scanned sc = scan_body(body.c_str(), &a->ports());
     if(mode == "txt") return "TXT " + hex((const unsigned char *)text.data(), text.size());   // debugging aid
     if(mode == "sl") {
         std::vector<std::string> ls = sc.lines;
